@@ -71,6 +71,7 @@ func Harness_E_C08() {
 		return
 	}
 	vhReach("returned")
+	vhObserveLayout(a)
 	vhAssert(len(a.Nodes) == len(b.Nodes), "rename-node-count")
 	vhAssert(len(a.Edges) == len(b.Edges), "rename-edge-count")
 	for i := 0; i < in.n; i++ {
@@ -468,6 +469,7 @@ func Harness_E_C17() {
 		return
 	}
 	vhReach("returned")
+	vhObserveLayout(b)
 	vhAssert(len(a.Nodes) == len(b.Nodes), "scale-node-count")
 	vhAssert(len(a.Edges) == len(b.Edges), "scale-edge-count")
 	for i := 0; i < len(a.Nodes) && i < len(b.Nodes); i++ {
@@ -498,6 +500,7 @@ func Harness_E_C18a() {
 		return
 	}
 	vhReach("returned")
+	vhObserveLayout(b)
 	vhSameLayout(a, b, "monitor")
 }
 
@@ -545,6 +548,9 @@ func Harness_E_C18b() {
 			vhReach("monitored-call-logged")
 		}
 	}
+	for j := range recs {
+		vhObserveInt("events", len(recs[j].events))
+	}
 	vhReach("history-done")
 }
 
@@ -560,6 +566,7 @@ func Harness_E_C15() {
 	a := Layout(in.src, in.opts...)
 	b := Layout(in.src, in.opts...)
 	vhReach("returned")
+	vhObserveLayout(a)
 	if in.p1 != 2 { // the explicitly non-deterministic greedy option aside
 		vhSameLayout(a, b, "second-call")
 	}
